@@ -428,25 +428,21 @@ theorem C03_conditional_global_write_counterexample :
 open Primaite.Gen.SharedState in
 /-- site ↦ reason for every process-global the shared-state inventory shows written at run time -/
 def globalsTable : List (String × GlobalDischarge) := [
-  ("game.agent.observations.nic_observations:NICObservation.capture_nmne", .rewrittenAtEveryBuild),
   ("primaite:PRIMAITE_CONFIG", .notWrittenByAnOperation),
   ("simulator.network.airspace:AirSpaceFrequency._registry", .notWrittenByAnOperation),
-  ("simulator.network.hardware.base:NetworkInterface.nmne_config", .rewrittenAtEveryBuild),
   ("simulator.system.core.packet_capture:PacketCapture._logger_instances", .sinkOnly),
   ("simulator:SIM_OUTPUT", .sinkOnly) ]
 
 open Primaite.Gen.SharedState in
 /-- **Gen obligation (inventory kind "module / class-level mutable state written at run time").** The run-time written
-process-globals are exactly the committed six, each with exactly the committed writer functions (a new global, or a new
+process-globals are exactly the committed four (six before the F-10 repair c95c025 made the two NMNE settings per-network state: no function assigns them any more, C04_gen_nmne_per_game; the kind `rewrittenAtEveryBuild`, its lemma and its counterexample stay for any future entry), each with exactly the committed writer functions (a new global, or a new
 function writing one, breaks this); and every global discharged `rewrittenAtEveryBuild` has `PrimaiteGame.from_config` among its
 UNCONDITIONAL writers — an assignment moved under an `if` (only when the scenario has the section) breaks it. -/
 theorem C03_process_globals_discharged :
     ((entries.filter fun e => !e.writers.isEmpty).map fun e => (e.name, e.writers.map fun i => fns.getD i "?")) =
-      [ ("game.agent.observations.nic_observations:NICObservation.capture_nmne", ["game.game:PrimaiteGame.from_config"]),
-        ("primaite:PRIMAITE_CONFIG", ["utils.cli.dev_cli:config_callback", "utils.cli.dev_cli:disable", "utils.cli.dev_cli:enable",
+      [ ("primaite:PRIMAITE_CONFIG", ["utils.cli.dev_cli:config_callback", "utils.cli.dev_cli:disable", "utils.cli.dev_cli:enable",
                                       "utils.cli.dev_cli:path"]),
         ("simulator.network.airspace:AirSpaceFrequency._registry", ["simulator.network.airspace:AirSpaceFrequency.__init__"]),
-        ("simulator.network.hardware.base:NetworkInterface.nmne_config", ["game.game:PrimaiteGame.from_config"]),
         ("simulator.system.core.packet_capture:PacketCapture._logger_instances",
           ["simulator.system.core.packet_capture:PacketCapture.clear", "simulator.system.core.packet_capture:PacketCapture.setup_logger"]),
         ("simulator:SIM_OUTPUT", ["session.io:PrimaiteIO.__init__", "simulator.network.networks:network_simulator_demo_example"]) ] ∧
